@@ -78,6 +78,17 @@ Proof.
   repeat apply conj; [exact sponge_prefix_ok|exact keccak_steps_ok|exact land_mask64|exact rotl_sum|exact ldiff_machine|exact lane_bytes_lane8].
 Qed.
 
+(* the written-out step tables of lib/Keccak.v are the ones FIPS 202 generates (rho offsets along the pi orbit, pi as a gather,
+   chi / theta neighbours, round constants from the LFSR) *)
+Theorem C04_keccak_tables_are_fips202 :
+  rho_pi_table = fips_rho_pi_table /\
+  (forall x y, (x < 5)%nat -> (y < 5)%nat -> fst (nth (y + 5 * ((2 * x + 3 * y) mod 5)) rho_pi_table (0%nat, 0%N)) = (x + 5 * y)%nat) /\
+  chi_table = fips_chi_table /\
+  lane_col = map (fun i => (i mod 5)%nat) (List.seq 0 25) /\
+  theta_d_src = map (fun x => (((x + 4) mod 5)%nat, ((x + 1) mod 5)%nat)) (List.seq 0 5) /\
+  round_constants = map fips_round_constant (List.seq 0 24).
+Proof. exact keccak_tables_are_fips202. Qed.
+
 (* a recorded oracle table passes the validator exactly when every pair in it is a value of keccak256 *)
 Theorem C04_keccak_table_validator : forall t, keccak_table_ok t = true <-> (forall x y, In (x, y) t -> keccak256 x = y).
 Proof. exact keccak_table_ok_spec. Qed.
@@ -174,3 +185,4 @@ Print Assumptions C04_keccak_lanes_are_64bit.
 Print Assumptions C04_keccak_table_validator.
 Print Assumptions C04_digest_follows_source.
 Print Assumptions C04_keccak_parameters_follow_source.
+Print Assumptions C04_keccak_tables_are_fips202.
